@@ -412,7 +412,7 @@ class C17(Prop):
             if beyond:      # near-misses of the beyond-singularity class are tracked apart
                 ctx.track('err/(K*est + kappa*floor) [some circle beyond the singularity]', ratio, summ)
                 continue
-            if K_EST * e >= KAPPA * floor:
+            if e > 0 and K_EST * e >= KAPPA * floor:
                 ctx.track('err/estimate (K*est >= kappa*floor)', err / e, summ)
             elif floor > 0:
                 ctx.track('err/floor (K*est < kappa*floor)', err / floor, summ)
